@@ -45,12 +45,12 @@ CLAIMED['C10'] = dict(
          'Dedup and MROMerge computes exactly the chain of CPython pmerge steps (candidate = head of the first sequence whose head '
          'is in no tail; advance every sequence with that head) and raises iff the chain gets stuck. Class.compute_mro, which builds '
          'the rows (and now refuses duplicate bases), and attribute lookup are covered only by a bounded sweep through the real VM '
-         'against type().',
+         'against type(). Second theory: Class.compute_mro -- refuses a repeated base, hands MROMerge exactly the rows [[C], L[B1], ..., L[Bn], [B1..Bn]] with parameterised classes stripped, and its stripped result is the pmerge step chain from those rows to the all-empty state; MROError only for a repeated base or a stuck merge.',
     note='Trusted: engine/, z3, A-SPEC (StepP transliterates typeobject.c pmerge; validated against type() on every hierarchy of '
          '<=5 classes), preconditions: distinct elements per row (Dedup), no SINGLETON classes, inner lists are distinct objects. '
-         'compute_mro/_ComputeMRO/attribute lookup: bounded only.',
+         'compute_mro/_ComputeMRO/attribute lookup: bounded only. compute_mro theory: abstract_utils.get_mro_bases opaque; A-MERGE-ELEMS (merge result elements occur in the input rows: assumed, used only for absence of KeyError). _ComputeMRO/GetBasesInMRO (stub classes), attribute lookup: bounded only.',
     technique='contract-based deductive verification: Python ast -> VC generator (ghost history, loop invariants, alias write-through) -> z3',
-    design='3 C10')
+    design='8.3, 3 C10')
 
 CLAIMED['C13'] = dict(
     text='Unbounded proof that the real source of SignedFunction._map_args raises a FailedFunctionCall subclass iff one of the five '
@@ -68,23 +68,23 @@ CLAIMED['C09'] = dict(
          'invariant of the bit matrix (row widths, clear padding), add_node keeps old answers and adds exactly the reflexive pair, '
          'add_connection makes R\' = R union R(.,src) x R(dst,.) for every node count (any number of 64-bit buckets, self and duplicate '
          'edges, dst row aliasing), is_reachable reads R; all int/size_t arithmetic in range and every operator[] in bounds. '
-         'The closure statement (R = reflexive-transitive closure of the inserted edges) follows by the Lean lemma lean/Closure.lean.',
+         'The closure statement (R = reflexive-transitive closure of the inserted edges) follows by the Lean lemma lean/Closure.lean. Second theory: the typegraph.cc glue -- CFGNode::ConnectTo (after a.ConnectTo(b) the backward relation is the old one plus everything that follows from the pair (b, a), also on the self-edge and duplicate-edge early returns; every recorded forward edge is in the relation) and Program::is_reachable (answers R(dst, src) of the backward relation) -- proved over a heap model lowered from the clang AST, using the view-level clauses of reachable.cc.',
     note='Trusted: engine/ incl. the C++ lowering (cxxfront.py), clang, z3, Lean 4/Mathlib; A-SHIFT, A-STL, A-MEM, LP64. '
-         'typegraph.cc glue (NewCFGNode/ConnectTo/Program::is_reachable argument order) and cfg.cc wrappers: bounded native sweep vs BFS only.',
+         'typegraph.cc glue (NewCFGNode/ConnectTo/Program::is_reachable argument order) and cfg.cc wrappers: bounded native sweep vs BFS only. Glue theory: unique_ptr::operator-> is the owned object, Program::InvalidateSolver does not touch reachability state; NewCFGNode/ConnectNew (dense ids, constructor) and the cfg.cc wrappers: bounded native sweep only.',
     technique='contract-based deductive verification: clang JSON AST -> Python-subset lowering -> VC generator (loop invariants, BV64 + arrays) -> z3; Lean 4 closure lemma',
-    design='3 C09')
+    design='8.3, 3 C09')
 
 CLAIMED['C08'] = dict(
     text='Proof of the invalidation protocol (first mechanism of C08) for every history: typestate contracts over all ~180 function '
          'bodies of typegraph.cc, typegraph.h and cfg.cc (clang AST, re-read on every run): on every path every mutation of a '
          'solver-observable field happens after InvalidateSolver() with no solver created in between; private helpers carry '
          '`requires invalidated` and every call site establishes it. Independence from query order inside one solver lifetime '
-         '(memo tables, path cache) is NOT decided (functional correctness of the search, see C07).',
+         '(memo tables, path cache) is NOT decided (functional correctness of the search, see C07). Frame obligations: the data members of Variable/Binding/CFGNode/Origin/Program are exactly the ones the protocol accounts for (a new or mutable member -- e.g. a cache filled by a const accessor -- is a failed obligation).',
     note='Trusted: engine/ (typestate analysis in contracts/c08.py), clang, the declared set of solver-observable fields (cross-checked '
          'against the accessors solver.cc uses), Prune\'s guarded operator[], no callbacks from STL/C-API. A bounded native history search '
          '(live Program vs rebuilt replica at every query) samples the undecided part.',
     technique='contract-based deductive verification: clang JSON AST -> typestate contracts (requires/ensures invalidated) checked per function over all paths',
-    design='3 C08')
+    design='8.3, 3 C08')
 
 CLAIMED['C03'] = dict(
     text='Proof, for all inputs and all histories of calls, over the real source of directors.py: (1) the line-set kernel _LineSet.__init__/set_line/'
@@ -110,17 +110,17 @@ CLAIMED['C16'] = dict(
          '(edges: every block gets the fall-through edge unless its last instruction has no successor, and the edges to the blocks that start '
          'at the target of its first instruction, the target and the block_target of its last instruction; incoming mirrors outgoing; no KeyError; '
          'blocks are heap objects mutated through aliases) and of cfg_utils.order_nodes (execution order: starts at the entry, lists no block twice, '
-         'every later block has a predecessor earlier in the list, the listed set is exactly the set reachable from the entry). The 3.12 '
-         'async-for/yield-from block surgery and opcode construction (indices, next/prev links, target resolution) are covered only by a '
-         'bounded sweep: every clause of C16 evaluated on every code object of the CPython 3.12 standard library through the real pipeline. '
-         'Known finding F10: the exception-edge block of a SEND loop is dropped on purpose.',
+         'every later block has a predecessor earlier in the list, the listed set is exactly the set reachable from the entry). Also proved, over heap opcodes: opcodes._make_opcode_list (instruction k carries index k, next/prev links are consistent, instructions pairwise distinct, every offset maps to the index of an instruction of the list) and opcodes._add_jump_targets (every jump target resolves to an instruction of the same list and arg is its index) -- which discharges the next-link precondition of the splitter. The 3.12 '
+         'async-for/yield-from block surgery, _make_opcodes/_add_setup_except and add_pop_block_targets are covered only by a '
+         'bounded sweep: every clause of C16 evaluated on every code object of a CPython 3.12 standard-library sample and of randomly generated (a)sync functions, through the real pipeline. '
+         'Known findings F10 (exception-edge block of a SEND loop dropped on purpose) and F16 (END_ASYNC_FOR block merged into two loop-closing blocks).',
     note='Trusted: engine/ (incl. the heap model of Block objects), z3, A-ATTR (opcode attributes are stable reads), A-LFP (graph reachability '
          'axiomatised as a least fixed point), A-LIB (min over a generator returns some element), preconditions: consistent next-links, no '
          'SEND/GET_ANEXT under 3.12 for the splitter, python_version < 3.12 for compute_order (same edge loop for all versions), block_target '
          'of a last instruction starts a block, node list closed under outgoing edges. Not proved: the final assert of order_nodes, and that '
          'compute_order adds no other edges. Unverified surround: opcodes.build_opcodes, add_pop_block_targets, async surgery, compute_predecessors.',
     technique='contract-based deductive verification: Python ast -> VC generator (loop invariants, ghost cut points, heap model, least-fixed-point schema) -> z3; bounded native sweep for the surround',
-    design='3 C16')
+    design='8.3, 3 C16')
 
 CLAIMED['C11'] = dict(
     text='Unbounded proof over the real source of pytd_utils.JoinTypes, the function every union built by the optimiser passes through: '
@@ -129,12 +129,12 @@ CLAIMED['C11'] = dict(
          'no duplicates), and joining the members of a result gives the same result (idempotence, proved as a lemma over the contract). '
          'All optimiser passes (CombineContainers, CombineReturnsAndExceptions, superclass simplification, CollapseLongUnions, ...) and '
          'Optimize as a whole are covered only by a bounded sweep against a finite value model (widening and idempotence). '
-         'Known finding F8: Optimize is not idempotent when signatures coincide only after a later pass.',
+         'Known finding F8: Optimize is not idempotent when signatures coincide only after a later pass. Frame obligation: no module- or class-level mutable state written by functions and no process-wide memo in the four optimiser modules; a native history check optimises the same stubs in two orders in two processes. Known finding F14: a nested class sharing its bare name with a top-level class narrows a union.',
     note='Trusted: engine/, z3, A-EQ (node equality is an equivalence respected by node functions), A-DEN, A-CTOR (UnionType(...) flattens '
          'and de-duplicates: pytd._FlattenTypes assumed), A-LIB (deque as list). Unverified surround: every visitor class of optimize.py, '
          'visitors.py, the pass pipeline.',
     technique='contract-based deductive verification: Python ast -> VC generator (loop invariant, anchored lemma, proof harness) -> z3; bounded native sweep vs a value model for the surround',
-    design='3 C11')
+    design='8.3, 3 C11')
 
 CLAIMED['C19'] = dict(
     text='Unbounded proof over the real source of pytype_runner.get_imports_map and PytypeRunner.setup_build against a ghost build plan '
